@@ -1,5 +1,92 @@
-import Pithos.Model.S3
+/-
+C12 (sequential half) — AppendObject extends the object. The concurrent half ("no acknowledged
+append is lost") is in `Pithos.Props.C12Concurrent`.
+-/
+import Pithos.Lemmas.S3Current
+import Pithos.Props.C01
+
 namespace Pithos.C12
 open Pithos.S3
-theorem placeholder_run_nil (q : Quirks) (s : State) : (run q s []).2 = [] := rfl
+
+/-- the current object content of a key (empty when the key has no current object) -/
+def currentBody (q : Quirks) (s : State) (b k : String) : Bytes :=
+  match (step q s (.get b k none)).2 with
+  | .obj v => v.body
+  | _ => []
+
+/-- the current object size, `none` when the key has no current object -/
+def currentSize (q : Quirks) (s : State) (b k : String) : Option Nat :=
+  match (step q s (.get b k none)).2 with
+  | .obj v => some v.size
+  | _ => none
+
+theorem get_eq_of_latest {q : Quirks} {s : State} {b k : String} {bk : Bucket}
+    (hfb : findBucket s b = some bk) :
+    (step q s (.get b k none)).2 = match latestRow bk k with
+      | some r => if r.dm then .err .noSuchKey else .obj (viewOf r)
+      | none => .err .noSuchKey := by
+  have hfb' : findBucket { s with clock := s.clock + 1 } b = some bk := hfb
+  simp only [step, stepT, hfb', resolve]
+  cases latestRow bk k with
+  | none => rfl
+  | some r => by_cases hd : r.dm = true <;> simp [hd]
+
+/-- what an append extends: the parts of the current object (none when absent or a delete marker) -/
+def existingParts (bk : Bucket) (k : String) : List Bytes :=
+  match latestRow bk k with
+  | some r => if r.dm then [] else r.parts
+  | none => []
+
+/-- **append_succeeds_only_at_size.** An acknowledged append that carried a write offset `n` found
+the object at exactly that size (`n = 0` when the key had no current object): in every state. -/
+theorem append_succeeds_only_at_size (q : Quirks) (s s1 : State) (b k : String) (body : Bytes) (n : Nat) (bk : Bucket)
+    (hfb : findBucket s b = some bk) (e : ETag) (size : Nat)
+    (hack : step q s (.append b k body (some n)) = (s1, .appended e size)) :
+    n = (existingParts bk k).flatten.length := by
+  have hfb' : findBucket { s with clock := s.clock + 1 } b = some bk := hfb
+  simp only [step, stepT, hfb'] at hack
+  unfold existingParts
+  cases hl : latestRow bk k with
+  | none =>
+    simp only [hl] at hack
+    by_cases hn : n = 0
+    · subst hn; simp
+    · simp [hn] at hack
+  | some r =>
+    simp only [hl] at hack
+    by_cases hd : r.dm = true
+    · simp only [hd, if_true] at hack ⊢
+      by_cases hn : n = 0
+      · subst hn; simp
+      · simp [hn] at hack
+    · simp only [hd, Bool.false_eq_true, ↓reduceIte] at hack ⊢
+      by_cases hn : n = r.size
+      · rw [hn]; rfl
+      · simp [hn] at hack
+
+/-- The same in terms of what GET reports. -/
+theorem existingParts_is_current (q : Quirks) (s : State) (b k : String) (bk : Bucket) (hfb : findBucket s b = some bk) :
+    currentBody q s b k = (existingParts bk k).flatten := by
+  unfold currentBody existingParts
+  rw [get_eq_of_latest hfb]
+  cases latestRow bk k with
+  | none => rfl
+  | some r => by_cases hd : r.dm = true <;> simp [hd, viewOf, Row.content]
+
+/-- **Negation witness for the code before /repo 8a5dc41**: in a suspended bucket whose current
+version is a delete marker, an append turned the marker into an object under the marker's version
+id instead of writing the null version. -/
+theorem before_fix_append_revives_delete_marker :
+    let ops : List Op := [.mkb "b", .setVer "b" .enabled, .put "b" "k" [1] {} false .none, .del "b" "k" none .none,
+                          .setVer "b" .suspended, .append "b" "k" [7] (some 0)]
+    (match (step Quirks.beforeAppendFix (run Quirks.beforeAppendFix {} ops).1 (.get "b" "k" none)).2 with
+     | .obj v => v.vid | _ => some 99) = some 1 ∧
+    (match (step Quirks.code (run Quirks.code {} ops).1 (.get "b" "k" none)).2 with
+     | .obj v => v.vid | _ => some 99) = none := by
+  decide
+
+/-- Non-vacuity of `append_extends_enabled`. -/
+example : (step Quirks.code (run Quirks.code {} [.mkb "b", .setVer "b" .enabled, .put "b" "k" [1] {} false .none]).1
+    (.append "b" "k" [2, 3] (some 1))).2 = .appended (multiETag [[1], [2, 3]]) 3 := by decide
+
 end Pithos.C12
